@@ -527,6 +527,7 @@ def run(ctx):
     printed_operations_keep_their_grouping(ctx)
     escape_sequences_follow_the_standard(ctx)
     alternative_tokens_follow_the_standard(ctx)
+    macro_expansions_are_spliced_unchanged(ctx)
 
     # ------------------------------------------------------------ R07.6
     n_c = 0
@@ -1315,3 +1316,38 @@ def alternative_tokens_follow_the_standard(ctx):
         ok = t[3:].lower().strip("_") == word.strip("_").lower() or t[3:].lower() == word.lower().replace("__", "").strip("_")
         ctx.ob("R07.17", "keywords|%s|own-keyword" % word, ok, site, "`%s` is lexed as %s" % (word, t))
     ctx.floor("R07.17", "keyword rows", n, 80)
+
+
+def macro_expansions_are_spliced_unchanged(ctx):
+    """R07.18: macro replacement is textual.  `#define BASE -1+4` / `#define SCALED 2*BASE` is 2*-1+4 = 2, not 2*(-1+4) = 6:
+    whatever a body lacks in parentheses, the expander must not add.  In expand_manifests() the text that replaces a macro
+    name - the local spliced into `expr` - comes from manifest->expand() and the recursive expand_manifests() on it and is
+    not edited in between.  (Seed S11-C07: an expansion starting with a sign was wrapped in parentheses; the recorded value
+    of every constant defined through such a macro next to a tighter operator changed.)"""
+    db = ctx.db
+    ctx.rule("R07.18", "in expand_manifests the string spliced in place of a macro name is assigned only once, from CPPManifest::expand(); nothing re-assigns it before the splice")
+    n = 0
+    for f in [g for g in db.functions if g.name == "CPPPreprocessor::expand_manifests"]:
+        for dd_stmt in f.walk():
+            if dd_stmt.get("k") != "decls":
+                continue
+            for dd in dd_stmt["d"]:
+                init = strip_casts(peel(dd.get("init"))) if dd.get("init") is not None else None
+                src = None
+                for z in (walk(init) if init is not None else []):
+                    if z.get("k") == "call" and z.get("f") == "CPPManifest::expand":
+                        src = z
+                if src is None:
+                    continue
+                n += 1
+                d = dd["d"]
+                edits = []
+                for y in f.walk():
+                    if y.get("k") == "call" and callee_short(y) in ("operator=", "operator+=", "insert", "append", "replace", "assign", "push_back") and "this" in y and (local_ref(y["this"]) or {}).get("d") == d:
+                        edits.append(y)
+                    if y.get("k") == "call" and callee_short(y) in ("operator=", "operator+=") and "this" not in y and y.get("a") and (local_ref(y["a"][0]) or {}).get("d") == d:
+                        edits.append(y)
+                ctx.ob("R07.18", "expand_manifests|%s|spliced-as-expanded" % dd.get("n"), not edits, f.loc(edits[0]) if edits else f.loc(dd_stmt),
+                       "the expansion is spliced into the expression as CPPManifest::expand() produced it" if not edits else
+                       "the expansion is edited (`%s`) before it is spliced in" % show(edits[0])[:60])
+    ctx.floor("R07.18", "expansions spliced by expand_manifests", n, 1)
